@@ -184,6 +184,12 @@ func (b *iptBackend) setKernelChain(chain string, rules []rule, present bool) {
 	b.dp.Chains[chain] = out
 }
 
+func (b *iptBackend) setMap(string, []mapMember)             {}
+func (b *iptBackend) removeMap(string)                         {}
+func (b *iptBackend) kmaps() kmapsT                            { return kmapsT{} }
+func (b *iptBackend) setKernelMap(string, []mapMember, bool) {}
+func (b *iptBackend) delTable()                                {}
+
 func (b *iptBackend) failWrites(n int) {
 	if n >= 99 {
 		b.dp.FailAllRestores = true
